@@ -577,6 +577,8 @@ static int restore_interior_string (char **val, svalue_t * sv) {
               {
                 while ((c = *cp++) != '"')
                   {
+                    if (c == '\0')
+                      return ROB_STRING_ERROR; /* unterminated: do not run past the end of the text */
                     if (c == '\\')
                       {
                         if (!(*newp++ = *cp++))
@@ -1220,6 +1222,8 @@ int restore_string (char *val, svalue_t * sv) {
               {
                 while ((c = *cp++) != '"')
                   {
+                    if (c == '\0')
+                      return ROB_STRING_ERROR; /* unterminated: do not run past the end of the text */
                     if (c == '\\')
                       {
                         if (!(*newp++ = *cp++))
